@@ -118,10 +118,15 @@ Definition scen_adm (wsgi : bool) (sc : scen) : bool :=
   && raise_adm (sc_fn sc) && raise_adm (sc_ser sc) && (wsgi || is_noneb (sc_ser sc))
   && negb (sc_opaque sc).
 
-(** listeners: only method_call and method_return_object listeners raise, a Fault or another Exception *)
+(** listeners: only method_call and method_return_object listeners raise, a Fault or another
+    Exception.  [quiet_beh] is the hypothesis on listener behaviours (what each callable does
+    for each event); [quiet] the same on a fire function. *)
+Definition quiet_beh (b : beh) : Prop :=
+  forall h e k, b h e = Some k -> (e = Ecall \/ e = Eret_obj) /\ (k = KFault \/ k = KOther).
 Definition quiet (fire : target -> ev -> bool -> list lid * option exk) : Prop :=
-  forall t e d,
-    match snd (fire t e d) with
-    | None => True
-    | Some k => t = TCtx /\ (e = Ecall \/ e = Eret_obj) /\ (k = KFault \/ k = KOther)
-    end.
+  forall t e d k, snd (fire t e d) = Some k -> (e = Ecall \/ e = Eret_obj) /\ (k = KFault \/ k = KOther).
+
+(** the raising firings of the property's alphabet are only ever made through ctx.fire_event *)
+Definition sites_ok (p : stmt) : bool :=
+  forallb (fun te => target_eqb (fst te) TCtx || negb (ev_eqb (snd te) Ecall || ev_eqb (snd te) Eret_obj))
+          (sites p).
